@@ -1,7 +1,7 @@
 /-
 C05 — Loading and re-writing a RapidPro export is lossless.
 -/
-import Rpft.Lemmas.Document
+import Rpft.Lemmas.Reorder
 import Rpft.DocumentWitness
 import Rpft.Gen.Tables
 set_option linter.unusedSimpArgs false
@@ -65,8 +65,8 @@ theorem roundtrip_shape (d : DocD) (hv : Valid d) (ho : OrderedCats d) (hx : Exi
     (hu : UntypedFields d) : roundtrip d = .ok (shapeDoc d) := by
   rw [roundtrip_eq d hv ho hx hu, outDoc_eq_shapeDoc d (nodeOk_of d hv ho hx hu)]
 
-/-- **C05, repeated round trips** (`_partial`: on the domain of `render_load`; see
-`C05_idem_full`).  The second round trip returns exactly the document the first one
+/-- **C05, repeated round trips** on the domain of `render_load` (lemma for
+`render_load_idem`, which drops the ordering hypotheses).  The second round trip returns exactly the document the first one
 returned — equality, not `≈`. -/
 theorem render_load_idem_partial (d o : DocD) (hv : Valid d) (ho : OrderedCats d) (hx : ExitsByCats d)
     (hu : UntypedFields d) (h : roundtrip d = .ok o) : roundtrip o = .ok o := by
@@ -75,19 +75,45 @@ theorem render_load_idem_partial (d o : DocD) (hv : Valid d) (ho : OrderedCats d
   rw [roundtrip_shape (shapeDoc d) (valid_shapeDoc d hv) (ordered_shapeDoc d ho) (exitsByCats_shapeDoc d hx)
     (untyped_shapeDoc d hu), shapeDoc_idem]
 
-/-- The full statement of the design (no ordering hypotheses: the re-join of categories is
-idempotent even when it reorders).  NOT proved: the lemmas about `loadRouter` need the
-categories in re-join order (`orderedRouter`) and the exits in category order; lifting them
-needs a permutation argument for `others ++ [default] ++ [no_response]` and the case of
-categories sharing an exit.  Checked on every generated and fixture document instead
-(oracle C: second round trip EQUAL to the first, incl. the F-C05-c and F-C05-d streams). -/
+/-- **what F-C05-c and F-C05-d do, exactly.**  For a valid document whose categories are
+wired to exits (`CatsWired`) but in ANY order, the round trip returns the shape of the
+*reordered* document: categories of a switch router as others ++ [default] ++ [no-response],
+exits of a router node in category order — nothing else changes. -/
+theorem roundtrip_unordered (d : DocD) (hv : Valid d) (hw : CatsWired d) (hu : UntypedFields d) :
+    roundtrip d = .ok (shapeDoc (reorderDoc d)) := by
+  obtain ⟨ho, hx, hu'⟩ := hyps_reorderDoc d hv hw hu
+  rw [← roundtrip_reorder d (nodeWired_of d hv hw)]
+  exact roundtrip_shape (reorderDoc d) (valid_reorderDoc d hv hw) ho hx hu'
+
+/-- **C05, repeated round trips, without the ordering hypotheses**: even when the first round
+trip reorders categories and exits (F-C05-c, F-C05-d), the second one returns exactly what
+the first one returned. -/
+theorem render_load_idem (d o : DocD) (hv : Valid d) (hw : CatsWired d) (hu : UntypedFields d)
+    (h : roundtrip d = .ok o) : roundtrip o = .ok o := by
+  obtain ⟨ho, hx, hu'⟩ := hyps_reorderDoc d hv hw hu
+  rw [← roundtrip_reorder d (nodeWired_of d hv hw)] at h
+  exact render_load_idem_partial (reorderDoc d) o (valid_reorderDoc d hv hw) ho hx hu' h
+
+/-- the unordered round trip is lossless up to the reordering: `o ≈ reorderDoc d` -/
+theorem render_load_unordered (d : DocD) (hv : Valid d) (hw : CatsWired d) (hu : UntypedFields d)
+    (hp : PlainGroups d) : ∃ o, roundtrip d = .ok o ∧ o ≈ reorderDoc d := by
+  obtain ⟨ho, hx, hu'⟩ := hyps_reorderDoc d hv hw hu
+  rw [← roundtrip_reorder d (nodeWired_of d hv hw)]
+  exact roundtrip_lossless (reorderDoc d) (valid_reorderDoc d hv hw) ho hx hu' hp
+
+/-- The unconditional statement (every document whose round trip succeeds).  NOT proved:
+`render_load_idem` needs `Valid` (schema), `CatsWired` (every category names an exit of its
+node, no two categories share an exit, default / timeout categories exist and differ) and
+`UntypedFields` (F-C05-a).  Outside that domain (e.g. two categories sharing one exit, a
+timeout of 0 seconds) idempotence is checked on every generated, quirk-stream and fixture
+document by oracle C / the tie, not proved. -/
 def C05_idem_full : Prop :=
   ∀ d o o' : DocD, roundtrip d = .ok o → roundtrip o = .ok o' → o' = o
 
-/-- `render_load_idem_partial` in the form of `C05_idem_full` -/
-theorem render_load_idem_partial_eq (d o o' : DocD) (hv : Valid d) (ho : OrderedCats d) (hx : ExitsByCats d)
-    (hu : UntypedFields d) (h : roundtrip d = .ok o) (h' : roundtrip o = .ok o') : o' = o := by
-  rw [render_load_idem_partial d o hv ho hx hu h] at h'
+/-- `render_load_idem` in the form of `C05_idem_full` -/
+theorem render_load_idem_eq (d o o' : DocD) (hv : Valid d) (hw : CatsWired d) (hu : UntypedFields d)
+    (h : roundtrip d = .ok o) (h' : roundtrip o = .ok o') : o' = o := by
+  rw [render_load_idem d o hv hw hu h] at h'
   cases h'; rfl
 
 /-! ### legacy triggers -/
@@ -161,6 +187,28 @@ theorem docRich_lossless : lossless docRich = true := by decide
 
 /-- the round trip of the good document is lossless (computed by the kernel) -/
 theorem docGood_lossless : lossless docGood = true := by decide
+
+/-- executable form of "the second round trip equals the first" -/
+def idempotentOn (d : DocD) : Bool :=
+  match roundtrip d with
+  | .ok o => (match roundtrip o with | .ok o' => o' == o | .error _ => false)
+  | .error _ => false
+
+/-- **non-vacuity** of `render_load_idem` / `roundtrip_unordered` on documents the first round
+trip does change: the F-C05-c and F-C05-d witnesses satisfy the hypotheses, … -/
+theorem idem_hyps_unordered :
+    (Valid docDefaultFirst ∧ CatsWired docDefaultFirst ∧ UntypedFields docDefaultFirst) ∧
+    (Valid docExitsPermuted ∧ CatsWired docExitsPermuted ∧ UntypedFields docExitsPermuted) ∧
+    (Valid docRich ∧ CatsWired docRich ∧ UntypedFields docRich) := by
+  refine ⟨⟨⟨?_, ?_, ?_, ?_, ?_, ?_, ?_, ?_, ⟨?_, ?_⟩, ?_⟩, ?_, ?_⟩, ⟨⟨?_, ?_, ?_, ?_, ?_, ?_, ?_, ?_, ⟨?_, ?_⟩, ?_⟩, ?_, ?_⟩,
+    ⟨⟨?_, ?_, ?_, ?_, ?_, ?_, ?_, ?_, ⟨?_, ?_⟩, ?_⟩, ?_, ?_⟩⟩ <;> decide
+
+/-- … and the kernel computes the instances: the first trip is not lossless there, the second
+returns what the first returned, and the first returns `shapeDoc (reorderDoc d)`. -/
+theorem idem_instances :
+    idempotentOn docDefaultFirst = true ∧ idempotentOn docExitsPermuted = true ∧ idempotentOn docRich = true ∧
+    (match roundtrip docDefaultFirst with | .ok o => o == shapeDoc (reorderDoc docDefaultFirst) | .error _ => false) = true ∧
+    reorderDoc docDefaultFirst ≠ docDefaultFirst := by decide
 
 /-- `lossless` is the executable form of the conclusion of `roundtrip_lossless` -/
 theorem lossless_iff (d : DocD) : lossless d = true ↔ ∃ o, roundtrip d = .ok o ∧ o ≈ d := by
